@@ -387,9 +387,17 @@ def _check_stat(run, repo, world, folder):
            "the answer byte must be byte 1 of the report", where(mod, fn))
     # idle reports filtered in _handle_read
     owner2, fn2 = _fn(world, HID + ".hasseb", "_handle_read")
-    t = [unparse(n.test) for n in ast.walk(fn2) if isinstance(n, ast.If)]
+    from .. import astq
+    dparam = fn2.args.args[1].arg
+    idle_cmp = any(
+        isinstance(n, ast.Compare) and len(n.ops) == 1 and isinstance(
+            n.ops[0], (ast.Eq, ast.NotEq)) and {
+                astq.canon(fn2, n.left),
+                astq.canon(fn2, n.comparators[0])} == {
+                    dparam + "[0]", "self._NO_DATA_AVAILABLE"}
+        for n in ast.walk(fn2))
     run.ob("R-STAT", HID + ".hasseb._handle_read#idle-filter",
-           "data[0] != self._NO_DATA_AVAILABLE" in t and folder.class_attr(
+           idle_cmp and folder.class_attr(
                owner2, "_NO_DATA_AVAILABLE") == hid["hasseb"]["idle_status"],
            "idle (NO DATA AVAILABLE) reports must not wake the sender",
            where(mod, fn2))
